@@ -23,7 +23,7 @@ from .codegen import (
 )
 from .error import InvalidTypes
 from .origin import NO_ORIGIN, Origin
-from .serialize import TYPE_KEY, DataClassSerializeMixin
+from .serialize import TYPE_KEY, DataClassSerializeMixin, SerializationOption
 from .types import get_cls_all_fields, get_cls_child_fields, get_cls_props
 from .typing import Field, FieldTypeInfo, check_annotations, is_instance
 
@@ -317,11 +317,18 @@ class ASTNode(DataClassSerializeMixin):
             self._get_serialization_options().get(AST_SERIALIZE_DIALECT_KEY)
             == ASTSerializationDialects.AST_TEST
         ):
-            out.get("origin", {})["source"] = {
+            # Keys are listed in sorted order, so that the stub is also valid with sort_keys
+            source_stub = {
                 TYPE_KEY: "Source",
-                "source_uri": "",
                 "source_type": "",
+                "source_uri": "",
             }
+
+            if self._get_serialization_options().get(SerializationOption.SKIP_CLASS, False):
+                # Type tags are suppressed for the whole call
+                del source_stub[TYPE_KEY]
+
+            out.get("origin", {})["source"] = source_stub
 
         return out
 
